@@ -198,7 +198,7 @@ def list_method(I, lst, name, args, kwargs, node):
             I.note_write(lst)
             lst.sort()
             return None
-        if len(lst) <= 4 and set(kwargs) <= {"key", "reverse"} and not kwargs.get("reverse"):
+        if len(lst) <= 4 and set(kwargs) <= {"key", "reverse"} and isinstance(kwargs.get("reverse", False), bool):
             # small list, symbolic keys: fork over the permutations; a permutation is the result exactly when consecutive keys
             # are non-decreasing and equal keys keep their original order (list.sort is stable)  [assumed library semantics]
             import itertools
@@ -207,7 +207,9 @@ def list_method(I, lst, name, args, kwargs, node):
             n = len(lst)
             perms = list(itertools.permutations(range(n)))
             for pi, perm in enumerate(perms):
-                cond = L.And(*[L.Or(lex_lt(keys[a], keys[b]), L.And(lex_eq(keys[a], keys[b]), a < b)) for a, b in zip(perm, perm[1:])])
+                # reverse=True: keys non-increasing; equal keys still keep their original order (CPython documents reverse sorts as stable)
+                rev = bool(kwargs.get("reverse", False))
+                cond = L.And(*[L.Or(lex_lt(keys[b], keys[a]) if rev else lex_lt(keys[a], keys[b]), L.And(lex_eq(keys[a], keys[b]), a < b)) for a, b in zip(perm, perm[1:])])
                 if pi == len(perms) - 1:
                     I.ctx.assume(L.to_z3(cond) if not isinstance(cond, bool) else z3.BoolVal(cond))
                     take = True
